@@ -309,7 +309,7 @@ static int utls_server(struct xcm_socket *s, const char *local_addr)
     map_tls_to_ux(actual_addr, ux_addr, sizeof(ux_addr));
 
     if (bind_sub_server(&us->ux_socket, ux_addr) <  0)
-	goto err;
+	goto err_close_both;
 
     LOG_SERVER_CREATED(s);
 
@@ -319,7 +319,6 @@ err_close_both:
     xcm_tp_socket_close(us->tls_socket);
 err_close_ux:
     xcm_tp_socket_close(us->ux_socket);
-err:
     deinit(s);
     return -1;
 }
